@@ -31,7 +31,7 @@ example : verifyHTLC xEnv xProof xSecret = .ok () ∧ decideHTLC xEnv xSecret 7 
 /-- the rejections the property names: a non-hex preimage, a wrong preimage, a lock value that is not 64 characters -/
 theorem htlc_rejects_bad_preimage (env : Env) (p : Proof) (s : Secret)
     (hne : ¬ Expired env (condOf env s.tags))
-    (hbad : hexDecode p.witness.preimage = none ∨ s.data.length ≠ 64 ∨
+    (hbad : hexDecode p.witness.preimage = none ∨ s.data.utf8ByteSize ≠ 64 ∨
       ∀ b, hexDecode p.witness.preimage = some b → env.sha256hex b ≠ s.data) :
     verifyHTLC env p s ≠ .ok () := by
   intro h
